@@ -442,39 +442,54 @@ def _r2(run, prog):
     evm = ci.methods['evaluate']
     K = '%s|Swizzle3D|evaluate|' % ci.mod.name
     params = [a.arg for a in evm.args.args[1:4]]
-    loops = [l for l in ast.walk(evm) if isinstance(l, ast.For)]
     run.subject('C13-R2')
-    ok = False
-    sel = {}
-    if len(loops) == 1 and norm(loops[0].iter) == 'range(3)':
-        i = loops[0].target.id
-        node = loops[0].body[0] if loops[0].body else None
-        while isinstance(node, ast.If):
-            t = node.test
-            if isinstance(t, ast.Compare) and norm(t.left) == 'self.shape[%s]' % i and isinstance(t.comparators[0], ast.Constant):
-                k = t.comparators[0].value
-                st = node.body[0]
-                if isinstance(st, ast.Assign) and norm(st.targets[0]).endswith('[%s]' % i):
-                    sel[k] = (norm(st.value), norm(st.targets[0]).split('[')[0])
-            nxt = node.orelse
-            if len(nxt) == 1 and isinstance(nxt[0], ast.If):
-                node = nxt[0]
-            else:
-                tail_raises = any(isinstance(s, ast.Raise) for s in nxt)
-                node = None
-        rets = [r for r in ast.walk(evm) if isinstance(r, ast.Return) and r.value is not None]
-        if sel and len({v[1] for v in sel.values()}) == 1:
-            d = next(iter(sel.values()))[1]
-            want_ret = 'self.function3d.evaluate(%s[0], %s[1], %s[2])' % (d, d, d)
-            e = WrapEval(*_origins(ci))
-            if {k: v[0] for k, v in sel.items()} == {0: params[0], 1: params[1], 2: params[2]} and tail_raises and rets \
-                    and norm(rets[-1].value).replace(' ', '') == want_ret.replace(' ', ''):
-                ok = True
-    if ok:
-        run.ok('C13-R2', 'Swizzle3D selector', 'd[i] = (x, y, z)[shape[i]], other values raise; returns F(d[0], d[1], d[2])')
-    else:
+    # finite evaluation: the body is interpreted for each of the 27 selectors (and an invalid one); the wrapped function must be called
+    # with (x, y, z)[shape[0]], [shape[1]], [shape[2]]
+    from ..pathinterp import PathInterp
+    import itertools as _it
+    helpers = {n: f for n, f in ci.mod.functions.items() if n.startswith('_')}
+    helpers.update({'self.' + n: f for n, f in ci.methods.items() if n.startswith('_') and not n.startswith('__')})
+    bad, und = None, None
+    for shape in list(_it.product(range(3), repeat=3)) + [(3, 0, 0)]:
+        class SE(SymEval):
+            def __init__(self_):
+                super().__init__()
+                for k_, v_ in enumerate(shape):
+                    self_.env['self.shape[%d]' % k_] = C(v_)
+
+            def subscript(self_, n):
+                r = super().subscript(n)          # an element stored earlier on this path (d[i] = x) is read back as its value
+                return self_.env.get(r.key(), r)
+        try:
+            paths = PathInterp(evm, sinks=('self.function3d.evaluate',), evaluator=SE, inline=helpers, max_paths=8).run()
+        except Exception as e_:
+            und = 'selector %s: %s' % (shape, str(e_)[:60])
+            break
+        paths = [p for p in paths]
+        if len(paths) != 1:
+            und = 'selector %s: %d paths' % (shape, len(paths))
+            break
+        p = paths[0]
+        if 3 in shape:
+            if not (p.returned is not None and p.returned.key() == 'raise'):
+                bad = (shape, 'an invalid selector does not raise')
+                break
+            continue
+        got = [a_.key() for a_ in p.sinks[0][1]] if len(p.sinks) == 1 else None
+        want = [params[k_] for k_ in shape]
+        if got is not None and any('?' in g for g in got):
+            und = 'selector %s: arguments %s' % (shape, got)
+            break
+        if got != want:
+            bad = (shape, 'the wrapped function is called with %s, expected (%s)' % (got, ', '.join(want)))
+            break
+    if und:
+        run.undecided('C13-R2', 'Swizzle3D selector', 'body not interpreted for ' + und)
+    elif bad:
         run.fail('C13-R2', K + 'selector', ci.mod.relpath, evm.lineno,
-                 'Swizzle3D.evaluate does not map output axis i to input coordinate shape[i]: selector %s' % sel)
+                 'Swizzle3D.evaluate does not map output axis i to input coordinate shape[i]: for shape %s %s' % bad)
+    else:
+        run.ok('C13-R2', 'Swizzle3D selector', 'all 27 selectors interpreted: F((x, y, z)[shape[0]], [shape[1]], [shape[2]]); an invalid selector raises')
     run.floor('C13-R2', 45)
 
 
@@ -640,7 +655,8 @@ def _r3(run, prog):
         def count_ok(k, cnt, arr):
             c = inline(cnt)
             if kind == 'range':
-                return None if c == '%s_range[2]' % AXES[k] else 'loop over %s runs %s times' % (AXES[k], c)
+                # the grid is linspace(min, max, n) (checked above): its length is n, so counting by the array itself is the same count
+                return None if c in ('%s_range[2]' % AXES[k], '%s.shape[0]' % arr, 'len(%s)' % arr) else 'loop over %s runs %s times' % (AXES[k], c)
             ok = c in ('%s.shape[0]' % arr, 'len(%s)' % arr, 'points.shape[0]', 'len(points)')
             return None if ok else 'loop over %s runs %s times' % (arr, c)
 
